@@ -139,6 +139,7 @@ type BundleOpts struct {
 	VariantSets int // b1 only: number of URLs with complete variant sets
 	MultiKey   bool // use a multi-key Variant-Key entry in the variant sets
 	Certs      []*certurl.AugmentedCertificate
+	Twins      int // extra exchanges whose status, headers and body are byte-identical to an earlier exchange (other URL)
 }
 
 // VariantSet describes one generated variants URL.
@@ -236,6 +237,16 @@ func RandBundle(g *mon.Rand, o BundleOpts) (*bundle.Bundle, []*VariantSet) {
 		e := &bundle.Exchange{Request: bundle.Request{URL: u, Header: http.Header{}}, Response: bundle.Response{Status: RandStatus(g), Header: RandHeader(g, 12), Body: RandBody(g, i < o.Big)}}
 		b.Exchanges = append(b.Exchanges, e)
 	}
+	for i := 0; i < o.Twins && len(b.Exchanges) > 0; i++ {
+		src := b.Exchanges[g.Intn(len(b.Exchanges))]
+		h := http.Header{}
+		for k, v := range src.Response.Header {
+			h[k] = append([]string{}, v...)
+		}
+		twin := &bundle.Exchange{Request: bundle.Request{URL: fresh(true), Header: http.Header{}}, Response: bundle.Response{Status: src.Response.Status, Header: h, Body: append([]byte{}, src.Response.Body...)}}
+		pos := g.Intn(len(b.Exchanges) + 1)
+		b.Exchanges = append(b.Exchanges[:pos], append([]*bundle.Exchange{twin}, b.Exchanges[pos:]...)...)
+	}
 	var sets []*VariantSet
 	if o.Version == version.VersionB1 {
 		for i := 0; i < o.VariantSets; i++ {
@@ -300,8 +311,9 @@ func NormHeader(h http.Header) map[string]string {
 
 // CorpusOpts shapes the i-th bundle of the shared C03/C04 corpus.
 func CorpusOpts(g *mon.Rand, i int, thorough bool, certs []*certurl.AugmentedCertificate) BundleOpts {
+	// (not i%2: with an even number of shards every process would only ever see one bundle version)
 	o := BundleOpts{Version: version.VersionB2, Certs: certs}
-	if i%2 == 1 {
+	if (i/3)%2 == 1 {
 		o.Version = version.VersionB1
 	}
 	switch {
@@ -322,6 +334,9 @@ func CorpusOpts(g *mon.Rand, i int, thorough bool, certs []*certurl.AugmentedCer
 		if o.NEx < o.Big+1 {
 			o.NEx = o.Big + 1
 		}
+	}
+	if i%4 == 2 {
+		o.Twins = 1 + g.Intn(3)
 	}
 	o.Primary = g.Bool()
 	o.Manifest = g.Chance(1, 3)
